@@ -32,6 +32,11 @@ def run(ctx) -> None:
                           "of the row budget on each path (global default / per-table override)", 3)
     ctx.rule("e.headers", "display names are the stored names (quoted by repr when needed), never the sanitised ones", 2)
     ctx.rule("f.pure", "repr writes no content field of the object", 3)
+    ctx.rule("g.definite-assignment", "every read of a local in the display code is definitely assigned: on each CFG path from the entry "
+                                      "to the read that by-passes all bindings, the branch outcomes taken are contradictory (same "
+                                      "test taken both ways, or truth tests of one subject with an empty intersection over "
+                                      "{None, falsy, truthy}); otherwise repr can raise UnboundLocalError", 1)
+    ctx.section("definite", _definite, ctx)
     ctx.section("partial", _partial, ctx)
     ctx.section("tail", _tail, ctx)
     ctx.section("empty", _empty, ctx)
@@ -46,6 +51,237 @@ def run(ctx) -> None:
 
 def _display_funcs(prog) -> List[FuncInfo]:
     return [f for q, f in prog.functions.items() if f.module == "display" and not isinstance(f.node, ast.Lambda)]
+
+
+# --------------------------------------------------------------------------------------------- g
+_DOM = frozenset(("none", "falsy", "truthy"))
+
+
+def _truth_set(test: ast.AST) -> Optional[Tuple[str, frozenset]]:
+    """(subject text, abstract values of the subject for which `test` is true) for the truth-test forms
+    X | not X | X is None | X is not None ; None for any other test."""
+    if isinstance(test, ast.UnaryOp) and isinstance(test.op, ast.Not):
+        r = _truth_set(test.operand)
+        return (r[0], _DOM - r[1]) if r else None
+    if isinstance(test, ast.Compare) and len(test.ops) == 1 and isinstance(test.comparators[0], ast.Constant) \
+            and test.comparators[0].value is None and isinstance(test.ops[0], (ast.Is, ast.IsNot)):
+        if attr_chain(test.left) is None:
+            return None
+        on = frozenset(("none",))
+        return (short(test.left), on if isinstance(test.ops[0], ast.Is) else _DOM - on)
+    if isinstance(test, (ast.Name, ast.Attribute)) and attr_chain(test) is not None:
+        return (short(test), frozenset(("truthy",)))
+    return None
+
+
+def _implied(test: ast.AST, outcome: bool) -> List[Tuple[ast.AST, bool]]:
+    """Atomic (test, outcome) facts implied by `test` evaluating to `outcome`:  (A and B) true => A, B true;
+    (A or B) false => A, B false;  not A => A with the other outcome.  The test itself is always included."""
+    out = [(test, outcome)]
+    if isinstance(test, ast.BoolOp):
+        if isinstance(test.op, ast.And) == outcome:
+            for v in test.values:
+                out += _implied(v, outcome)
+    elif isinstance(test, ast.UnaryOp) and isinstance(test.op, ast.Not):
+        out += _implied(test.operand, not outcome)
+    return out
+
+
+_NAMES_CACHE: dict = {}
+
+
+def _names_of_text(txt: str) -> Set[str]:
+    r = _NAMES_CACHE.get(txt)
+    if r is None:
+        try:
+            r = {x.id for x in ast.walk(ast.parse(txt, mode="eval")) if isinstance(x, ast.Name)}
+        except SyntaxError:
+            r = set()
+        _NAMES_CACHE[txt] = r
+    return r
+
+
+def _own_loads(nd) -> Set[str]:
+    """Names read by the node's OWN expression, respecting comprehension / lambda scopes."""
+    if nd.ast is None:
+        return set()
+    if nd.kind == "for":
+        roots = [nd.ast.iter]
+    elif nd.kind == "with":
+        roots = [i.context_expr for i in nd.ast.items]
+    elif nd.kind == "except":
+        roots = [nd.ast.type] if nd.ast.type is not None else []
+    elif isinstance(nd.ast, (ast.FunctionDef, ast.AsyncFunctionDef, ast.ClassDef)):
+        roots = list(nd.ast.decorator_list)
+    else:
+        roots = [nd.ast]
+    out: Set[str] = set()
+
+    def visit(n: ast.AST, bound: frozenset) -> None:
+        if isinstance(n, (ast.ListComp, ast.SetComp, ast.GeneratorExp, ast.DictComp)):
+            b = set(bound)
+            for i, g in enumerate(n.generators):
+                visit(g.iter, frozenset(b) if i else bound)
+                b |= {m.id for m in ast.walk(g.target) if isinstance(m, ast.Name)}
+                for c in g.ifs:
+                    visit(c, frozenset(b))
+            fb = frozenset(b)
+            for part in ([n.key, n.value] if isinstance(n, ast.DictComp) else [n.elt]):
+                visit(part, fb)
+            return
+        if isinstance(n, ast.Lambda):
+            a = n.args
+            ps = {x.arg for x in a.posonlyargs + a.args + a.kwonlyargs} | {x.arg for x in (a.vararg, a.kwarg) if x}
+            for d in a.defaults + [d for d in a.kw_defaults if d is not None]:
+                visit(d, bound)
+            # the body runs later: its free names are not reads at this node
+            return
+        if isinstance(n, (ast.FunctionDef, ast.AsyncFunctionDef, ast.ClassDef)):
+            return
+        if isinstance(n, ast.Name):
+            if isinstance(n.ctx, ast.Load) and n.id not in bound:
+                out.add(n.id)
+            return
+        for c in ast.iter_child_nodes(n):
+            visit(c, bound)
+    for r in roots:
+        visit(r, frozenset())
+    return out
+
+
+def _locals_of(f: FuncInfo) -> Set[str]:
+    a = f.node.args
+    params = {x.arg for x in a.posonlyargs + a.args + a.kwonlyargs} | {x.arg for x in (a.vararg, a.kwarg) if x}
+    comp_targets = set()
+    declared = set()
+    for n in walk_no_nested(f.node):
+        if isinstance(n, (ast.ListComp, ast.SetComp, ast.GeneratorExp, ast.DictComp)):
+            for g in n.generators:
+                comp_targets |= {id(m) for m in ast.walk(g.target) if isinstance(m, ast.Name)}
+        elif isinstance(n, (ast.Global, ast.Nonlocal)):
+            declared |= set(n.names)
+    out = set()
+    for n in walk_no_nested(f.node):
+        if isinstance(n, ast.Name) and isinstance(n.ctx, ast.Store) and id(n) not in comp_targets:
+            out.add(n.id)
+        elif isinstance(n, (ast.FunctionDef, ast.AsyncFunctionDef, ast.ClassDef)) and n is not f.node:
+            out.add(n.name)
+        elif isinstance(n, ast.ExceptHandler) and n.name:
+            out.add(n.name)
+        elif isinstance(n, (ast.Import, ast.ImportFrom)):
+            out |= {(al.asname or al.name.split(".")[0]) for al in n.names}
+    return out - params - declared
+
+
+def _undefined_path(cfg, var: str, use) -> Optional[Tuple[List, str]]:
+    """A path entry -> use on which `var` is never bound and whose branch outcomes are not contradictory.
+    Returns (path, reason) or None.  Paths are enumerated backwards over nodes that do not bind `var`;
+    a branch outcome is contradictory with an earlier one when the same (unrebound) test is taken the
+    other way or the truth sets of one subject intersect to nothing."""
+    from ..cfg import _defines
+    # nodes from which `use` is reachable without a binding (backward closure)
+    back = {use.id}
+    todo = [use]
+    while todo:
+        n = todo.pop()
+        for p in n.pred:
+            if p.id not in back and p.kind != "entry" and _defines(p, var) is None:
+                back.add(p.id)
+                todo.append(p)
+            elif p.kind == "entry":
+                back.add(p.id)
+    if cfg.entry.id not in back:
+        return None
+    budget = [20000]
+    found: List = []
+
+    def dfs(n, path, facts, texts, on_path) -> bool:
+        budget[0] -= 1
+        if budget[0] < 0:
+            raise AnalysisError(f"definite assignment of `{var}`: path budget exhausted")
+        if n is use:
+            found.append(list(path))
+            return True
+        for s, lab in n.succ:
+            if s.id not in back or (s.id in on_path and s is not use):
+                continue
+            if s is not use and _defines(s, var) is not None:
+                continue
+            nf, nt = facts, texts
+            if n.kind == "test" and lab in ("T", "F"):
+                nt, nf = dict(texts), dict(facts)
+                feasible = True
+                for atom, out in _implied(n.ast, lab == "T"):
+                    txt = short(atom, 300)
+                    prev = nt.get(txt)
+                    if prev is not None and prev != out:
+                        feasible = False          # same test, other way: infeasible
+                        break
+                    nt[txt] = out
+                    ts = _truth_set(atom)
+                    if ts is not None:
+                        subj, on = ts
+                        cur = nf.get(subj, _DOM) & (on if out else _DOM - on)
+                        if not cur:
+                            feasible = False      # truth tests of one subject contradict: infeasible
+                            break
+                        nf[subj] = cur
+                if not feasible:
+                    continue
+            # a rebinding (at s) of a name a recorded fact speaks about invalidates the fact
+            if s.ast is not None and s.kind != "test":
+                stale = [k for k in nt if any(_defines(s, nm) is not None for nm in _names_of_text(k))]
+                if stale:
+                    nt = {k: v for k, v in nt.items() if k not in stale}
+                    nf = {k: v for k, v in nf.items() if not any(_defines(s, nm) is not None for nm in _names_of_text(k))}
+            path.append(s)
+            on_path.add(s.id)
+            ok = dfs(s, path, nf, nt, on_path)
+            on_path.discard(s.id)
+            path.pop()
+            if ok:
+                return True
+        return False
+    if dfs(cfg.entry, [cfg.entry], {}, {}, {cfg.entry.id}):
+        return found[0], ""
+    return None
+
+
+def _definite(ctx) -> None:
+    prog = ctx.prog
+    for f in _display_funcs(prog):
+        cfg = cfg_of(f)
+        locs = _locals_of(f)
+        if not locs:
+            continue
+        reach = cfg.reachable()
+        reads = 0
+        problems = []
+        for nd in cfg.nodes:
+            if nd.id not in reach or nd.ast is None:
+                continue
+            for v in sorted(_own_loads(nd) & locs):
+                reads += 1
+                if not any(d is PARAM for d, _ in reaching_def_nodes(cfg, v, nd)):
+                    continue
+                r = _undefined_path(cfg, v, nd)
+                if r is None:
+                    continue
+                path, _ = r
+                problems.append((v, nd, path))
+        seenv = set()
+        for v, nd, path in problems:
+            if v in seenv:
+                continue
+            seenv.add(v)
+            branch = [f"{p.text()}@{p.lineno}" for p in path if p.kind in ("test", "for")]
+            ctx.ob("g.definite-assignment", f, f"local:{v}", False, "", nd.ast,
+                   message=f"`{v}` is read at line {nd.lineno} (`{short(nd.ast, 60)}`) but a path from the entry reaches it without any "
+                           f"binding and its branch outcomes are consistent: {' -> '.join(branch[-6:]) or 'straight line'}; "
+                           f"repr would raise UnboundLocalError there")
+        ctx.ob("g.definite-assignment", f, "all-reads", not problems,
+               f"{reads} reads of {len(locs)} locals definitely assigned (path-sensitive over truth tests)", f.node,
+               message=f"{len(seenv)} local(s) possibly unbound")
 
 
 # --------------------------------------------------------------------------------------------- a
@@ -499,6 +735,15 @@ MUTANTS = [
          rules=["c.footer"]),
     dict(id="repr-marks-tame", module=_D, old="	nd = len(pv.shape)\n	if nd == 1:", new="	nd = len(pv.shape)\n	pv._display_as_row = False\n	if nd == 1:",
          rules=["f.pure"]),
+    dict(id="header-guards-disagree", module=_D, old="	if v._name:\n		lines.append(header_text", new="	if v._name is not None:\n		lines.append(header_text",
+         rules=["g.definite-assignment"], desc="a vector named '' reaches header_text unbound"),
+    dict(id="header-binding-only-when-quoted", module=_D, old="		header_text = repr(v._name) if _needs_quote(v._name) else v._name\n",
+         new="		if _needs_quote(v._name):\n			header_text = repr(v._name)\n", rules=["g.definite-assignment"]),
+    dict(id="twin-header-guards-both-explicit", module=_D, twin=True,
+         edits=[(_D, "	if v._name:\n		header_text", "	if v._name is not None:\n		header_text", 1),
+                (_D, "	if v._name:\n		lines.append(header_text", "	if v._name is not None:\n		lines.append(header_text", 1)]),
+    dict(id="twin-header-guard-stronger-at-use", module=_D, twin=True,
+         old="	if v._name:\n		lines.append(header_text", new="	if v._name and len(formatted) >= 0:\n		lines.append(header_text"),
     dict(id="twin-finite-nested-if", module=_D, twin=True,
          old="			out.append(f\"{v:.1f}\" if math.isfinite(v) and v == int(v) else f\"{v:g}\")",
          new="			if math.isfinite(v) and v == int(v):\n				out.append(f\"{v:.1f}\")\n			else:\n				out.append(f\"{v:g}\")"),
